@@ -11,7 +11,7 @@ for id in "${ids[@]}"; do
   checks=$(jq -r '.expected_caught_by | join(" ")' "$d/meta.json")
   out=$(bin/try-mutant.sh "$d/patch.diff" $checks 2>&1)
   for c in $checks; do
-    if echo "$out" | grep -q "^== $c exit=1"; then echo "CAUGHT  $id by $c: $(echo "$out" | grep -A3 "^== $c " | grep signature | head -1 | cut -c1-150)";
+    if grep -q "^== $c exit=1" <<<"$out"; then echo "CAUGHT  $id by $c: $(echo "$out" | grep -A3 "^== $c " | grep signature | head -1 | cut -c1-150)";
     else echo "MISSED  $id by $c ($(echo "$out" | grep "^== $c " | head -1))"; fail=1; fi
   done
 done
